@@ -144,7 +144,7 @@ func runC05(r *Report, rng *rand.Rand, thorough bool) {
 			for _, m := range o.val.Obj {
 				atoms += m[1]
 			}
-			if o.cell.Loc == "cookie" && (strings.ContainsAny(atoms, " ,;\"\\") || !isASCII(atoms)) {
+			if o.cell.Loc == "cookie" && o.cell.Kind == "styled" && (strings.ContainsAny(atoms, " ,;\"\\") || !isASCII(atoms)) {
 				sig = "cookie_value_bytes_stripped_by_client"
 			}
 			if o.cell.effStyle() == "deepObject" && strings.Contains(atoms, "+") {
@@ -179,8 +179,8 @@ func runC05(r *Report, rng *rand.Rand, thorough bool) {
 				if c.Kind != "styled" || !lab.Status[cellPkg(fw, c)].OK {
 					continue
 				}
-				for i := 0; i < k; i++ {
-					v := genValue(rng, c)
+				for i := 0; i < valuesPerCell(c, k); i++ {
+					v := genValueAt(rng, c, i)
 					s, pairs := tableWire(c, &v)
 					req := map[string]any{"method": "GET", "target": "/" + c.Op}
 					switch c.Loc {
